@@ -210,6 +210,6 @@ Definition add_return_type (l r : ty) : outcome ty :=
   | None => Ok l
   | Some le => match element_type r with
                | Some re => Ok (TArr (concat le re))
-               | None => Panic
+               | None => Ok (TArr (concat le TNever))   (* unwrap_or(Type::Never) *)
                end
   end.
